@@ -3,6 +3,9 @@
 # Confirms a seeded change (patch<k>.diff + demo<k>.sh in <outdir>) and runs checks against it.
 # Keeps it as /verif/seeded/<seed-id>/ when confirmed. /repo is restored afterwards.
 set -u
+# a change under test may remove or replace device nodes it is handed (as root): put them back
+guard_dev() { [ -c /dev/full ] || { rm -f /dev/full; mknod -m 666 /dev/full c 1 7 && echo "note: /dev/full had been replaced and was restored" >&2; }; [ -c /dev/null ] || { rm -f /dev/null; mknod -m 666 /dev/null c 1 3; }; }
+guard_dev
 OUT=$1; K=$2; ID=$3; PROP=$4; shift 4; CHECKS="$PROP $*"
 export GOFLAGS=-mod=mod GOPROXY=off
 V=/verif                     # where confirmed seeds are kept
@@ -51,3 +54,4 @@ json.dump({"id":id,"breaks_property":prop,"needs_to_manifest":m.strip(),
  "check_results_quick":res.strip()}, open(f"/verif/seeded/{id}/meta.json","w"), indent=1)
 PY
 fi
+guard_dev
